@@ -169,6 +169,29 @@ Definition extremal_by (is_max : bool) (f : val -> str val) (xs : list val) : st
   | _ => fin_str t
   end.
 
+(** ** [bsearch]: [slice::binary_search_by] of the standard library (the branch-free variant: the number of rounds depends on
+    the length only; of several equal elements it finds the one this loop arrives at) *)
+Fixpoint bs_loop (fuel : nat) (a : list val) (x : val) (base size : nat) : nat :=
+  match fuel with
+  | O => base
+  | S fuel =>
+      if (size <=? 1)%nat then base
+      else let half := (size / 2)%nat in
+           let mid := (base + half)%nat in
+           bs_loop fuel a x (match val_cmp (nth mid a Null) x with Gt => base | _ => mid end) (size - half)%nat
+  end.
+
+Definition bsearch (a : list val) (x : val) : Z :=
+  match a with
+  | [] => (-1)%Z
+  | _ => let base := bs_loop (List.length a) a x 0%nat (List.length a) in
+         match val_cmp (nth base a Null) x with
+         | Eq => Z.of_nat base
+         | Lt => (-1 - Z.of_nat (base + 1)%nat)%Z
+         | Gt => (-1 - Z.of_nat base)%Z
+         end
+  end.
+
 (** ** explode / implode *)
 Definition explode (s : bytes) : list val :=
   flat_map (fun p => match fst p with
@@ -305,6 +328,7 @@ Definition std_run (fuel : nat) (name : bytes) (args : list narg) (v : val) : op
   | [NV a] =>
       if name_is name "has" then Some (of_res (rmap (fun o => Bool (match o with Some _ => true | None => false end)) (index_opt v a)))
       else if name_is name "contains" then Some (sone (Bool (contains v a)))
+      else if name_is name "bsearch" then Some (of_res (rmap (fun l => vint (bsearch l a)) (need_arr v)))
       else if name_is name "indices" then Some (of_res (indices v a))
       else if name_is name "startswith" then
         Some (of_res (rbind (as_bytes v) (fun x => rbind (as_bytes a) (fun p => Ok (Bool (is_prefix p x))))))
